@@ -120,6 +120,25 @@ def check(ctx):
     writers = fn.effective_writers(K, ef)
     ctx.require(writers <= {"__init__", "wait"}, "C16.O2", f"expiry written only by {sorted(writers)}", f"the stored expiry is also written by {sorted(writers - {'__init__', 'wait'})}", site=site("wait"), key="C16.O2|writers")
     # ---- M1 typestate
+    # a second instance starts its own grid, and entering the with-block does not touch the grid
+    def two(it, w):
+        a_ = it.call(K, [p], {})
+        n0 = len(it.trace)
+        b_ = it.call(K, [p], {})
+        tr = it.trace[n0:]
+        n1 = len(it.trace)
+        r = it.call(it.getattr(b_, "__enter__"), [], {})
+        return b_, tr, it.trace[n1:], r
+
+    for q in fn.all_paths(ctx, two):
+        if q.outcome != "return":
+            continue
+        b_, tr, tr_enter, r = q.value
+        arm2 = [e for e in hal(tr) if e.name == "hal.updateNotifierAlarm"]
+        now2 = [e.extra for e in tr if e.kind == "clock" and e.extra.tag[1] == "us"]
+        good = len(arm2) == 1 and now2 and arm and _same(Lin.of(arm2[0].args[1]).add(now2[-1], -1).simplify(), Lin.of(arm[0].args[1]).add([e.extra for e in clocks if e.extra.tag[1] == "us"][-1], -1).simplify())
+        ctx.require(bool(good), "C16.O1", "a second NotifierDelay arms its own first alarm at its own t0 + P", f"a second NotifierDelay instance arms its first alarm at {arm2[0].args[1] if arm2 else None!r}: not its own creation time plus one period (state shared between instances)", site=site("__init__"), key="C16.O1|second")
+        ctx.require(not hal(tr_enter) and r is b_ and _same(b_.fields.get(ef), arm2[0].args[1] if arm2 else None), "C16.O2", "__enter__ returns the object and leaves the grid alone", f"entering the with-block makes HAL calls {[e.name for e in hal(tr_enter)]} / moves the expiry: the grid would start at the `with` statement instead of at creation", site=site("__enter__"), key="C16.O2|enter")
     seqs = [("free",), ("free", "wait"), ("free", "free"), ("__exit__", "wait"), ("__del__", "wait"), ("wait", "free", "wait", "free"), ("__exit__", "free")]
     for seq in seqs:
         def run_seq(it, w, seq=seq):
